@@ -31,6 +31,8 @@ LEVEL_NOTE = "Trusted: z3 (LIA), engine models of str.split/join/format/int; ckd
 
 class Rec:
     calls = []
+    fail_at = None       # 1-based call number at which the stand-in reports an invalid child (BIP32: IL >= n, zero key, infinity)
+    exc = None
 
 
 def fake_ckd(self, index):
@@ -39,6 +41,8 @@ def fake_ckd(self, index):
         # contract of the real ckd (ser32 overflows); established on the real code by the neg/big fault cases
         raise OverflowError("int too big to convert")
     Rec.calls.append(index)
+    if Rec.fail_at is not None and len(Rec.calls) == Rec.fail_at:
+        raise Rec.exc("derived key is invalid (injected)")
     child = self.__class__(key=self.key, chain_code=self.chain_code, index=index, depth=self.depth + 1,
                            testnet=self.testnet, parent=self)
     self.children.append(child)
@@ -68,6 +72,29 @@ def _stub(E, R, on=True):
             elif "_real_ckd" in cls.__dict__:
                 cls.ckd = cls._real_ckd
     Rec.calls = []
+    Rec.fail_at = None
+
+
+def invalid_child(E, R, L, j, public):
+    """BIP32 declares the child at level j invalid (the derivation step reports InvalidKeyError -- injected by the
+    stand-in): the lookup fails, and it does not go on to derive some other index in its place"""
+    _stub(E, R, True)
+    try:
+        top = 2 ** 31 - 1 if public else 2 ** 32 - 1
+        l = [E.int("i%d" % k, 0, top) for k in range(L)]
+        s = fmt(E, "m", [tok(E, v, "'") for v in l])
+        w, master = _wallet(E, R, public)
+        Rec.fail_at, Rec.exc = j + 1, R.bip32.InvalidKeyError
+        node = E.run(w.by_path, s)
+        E.check(isinstance(node, Raised), "a path through an invalid child is rejected, never answered with another node")
+        E.check_eq(list(Rec.calls), l[:j + 1], "no derivation of any other index is attempted in place of the invalid child")
+        Rec.calls, Rec.fail_at = [], j + 1
+        node2 = E.run(master.derive_path, list(l))
+        E.check(isinstance(node2, Raised), "derive_path through an invalid child is rejected")
+        E.check_eq(list(Rec.calls), l[:j + 1], "no derivation of any other index is attempted in place of the invalid child")
+        return "ok"
+    finally:
+        _stub(E, R, False)
 
 
 def tok(E, v, marker):
@@ -348,6 +375,9 @@ def cases(tier):
         cs.append(Case("badroot[%d]" % n, "badroot", dict(n=n)))
     for L in (range(6, 9) if tier == "quick" else range(6, 13)):
         cs.append(Case("deep[%d]" % L, "deep", dict(L=L)))
+    for (L, j, pub) in ((1, 0, False), (2, 1, False), (3, 1, True), (3, 2, False), (2, 0, True)):
+        cs.append(Case("invalid_child[L=%d,at=%d,public=%s]" % (L, j, pub), "invalid_child", dict(L=L, j=j, public=pub),
+                       need=("a path through an invalid child is rejected, never answered with another node",)))
     return cs
 
 
